@@ -47,7 +47,7 @@ src = open(os.path.join(repo, "src/masa.f90")).read()
 lines = [re.sub(r"!.*$", "", l.replace("\t", " ")) for l in src.split("\n")]
 text = "\n".join(lines)
 START = re.compile(r"^\s*(?:(real\s*\(\s*c_double\s*\)|integer\s*\(\s*c_int\s*\))\s+)?(function|subroutine)\s+(\w+)\s*\(([^)]*)\)\s*bind\s*\(\s*C\s*,\s*name\s*=\s*'(\w+)'\s*\)", re.I)
-DECL = re.compile(r"^\s*(real|integer|character)\s*\(\s*(\w+)\s*\)\s*((?:,\s*[\w() *]+?\s*)*)::\s*(.+)$", re.I)
+DECL = re.compile(r"^\s*(real|integer|character)\s*\(\s*(\w+)\s*\)\s*((?:,\s*[\w() *:]+?\s*)*)::\s*(.+)$", re.I)
 
 
 def ctype_of(kind, ckind, attrs, name_part, errors, where):
@@ -60,6 +60,8 @@ def ctype_of(kind, ckind, attrs, name_part, errors, where):
     is_array = "dimension" in attrs_l or "(*)" in name_part or "(:" in name_part
     if by_value and is_array:
         errors.append(f"{where}: value attribute on an array")
+    if re.search(r"dimension\s*\(\s*:", attrs_l) or "(:" in name_part:
+        errors.append(f"{where}: assumed-shape array dummy in a bind(C) interface is passed by descriptor (CFI_cdesc_t*), the C function expects a plain {base}*")
     return base if (by_value and not is_array) else base + "*"
 
 
